@@ -399,16 +399,28 @@ class CHECK(core.Check):
         return False
 
     def shrink_candidates(self, case):
+        """smaller variants that stay outside the region of known finding D20b"""
         ops = case["ops"]
+        cands = []
         for i in range(len(ops)):
-            yield {"stack": case["stack"], "ops": ops[:i] + ops[i + 1:]}
+            cands.append({"stack": case["stack"], "ops": ops[:i] + ops[i + 1:]})
         for i, t in enumerate(ops):
             if t[0] in "POA" and "," in t:
                 parts = t[1:].split(",")
                 for j in range(len(parts)):
-                    yield {"stack": case["stack"], "ops": ops[:i] + [t[0] + ",".join(parts[:j] + parts[j + 1:])] + ops[i + 1:]}
+                    cands.append({"stack": case["stack"], "ops": ops[:i] + [t[0] + ",".join(parts[:j] + parts[j + 1:])] + ops[i + 1:]})
             if t[0] in "POA" and t[1:]:
                 parts = t[1:].split(",")
                 for j in range(len(parts)):
                     if parts[j] != "k":
-                        yield {"stack": case["stack"], "ops": ops[:i] + [t[0] + ",".join(parts[:j] + ["k"] + parts[j + 1:])] + ops[i + 1:]}
+                        cands.append({"stack": case["stack"], "ops": ops[:i] + [t[0] + ",".join(parts[:j] + ["k"] + parts[j + 1:])] + ops[i + 1:]})
+        cands = [c for c in cands if c["ops"]]
+        if not cands:
+            return
+        if any(t[0] == "O" for t in ops):
+            rep = core.Driver(self.ENGINE).run(["region D20b " + " ".join(c["ops"]) for c in cands])
+        else:
+            rep = ["false"] * len(cands)
+        for c, r in zip(cands, rep):
+            if r == "false":
+                yield c
